@@ -146,3 +146,26 @@ def impl_result(r, tree_after=None):
     if tree_after is not None:
         s += " | " + enc_val(tree_after)
     return s
+
+
+def build(enc):
+    """rebuild a python object (with n0dict/n0list vs dict/list classes) from its protocol text"""
+    n0dict, n0list = n0()
+    tagged, _ = core.dec_val(enc.split(), 0, plain=False)
+
+    def go(t):
+        if isinstance(t, tuple) and len(t) == 3 and t[0] == "L":
+            xs = [go(x) for x in t[2]]
+            if t[1] == "n":
+                r = n0list()
+                list.extend(r, xs)
+                return r
+            return xs
+        if isinstance(t, tuple) and len(t) == 3 and t[0] == "D":
+            r = n0dict() if t[1] == "n" else {}
+            for k, v in t[2]:
+                dict.__setitem__(r, k, go(v))
+            return r
+        return t
+
+    return go(tagged)
